@@ -125,8 +125,18 @@ def _ctc_names(c: AObj) -> set[str]:
 
 def models(mb: ModelBuilder) -> dict[str, AObj]:
     ms = {"rich": rich_model(mb), "rich-noctc": rich_model(mb, ctcs=False)}
-    for k in ("root-only", "one-child", "bushy"):
+    for k in ("root-only", "one-child", "bushy", "two-groups"):
         ms[k] = mb.model(build_tree(mb, TREES[k]), [])
+    # one feature carrying several group relations of different kinds (features with a group != group relations)
+    r2 = mb.feature("Multi")
+    mb.relation(r2, [mb.feature("a1"), mb.feature("a2")], 1, 1)
+    mb.relation(r2, [mb.feature("b1"), mb.feature("b2")], 1, 1)
+    mb.relation(r2, [mb.feature("o1"), mb.feature("o2"), mb.feature("o3")], 1, 3)
+    h = mb.feature("Host")
+    mb.relation(r2, [h], 0, 1)
+    mb.relation(h, [mb.feature("m1"), mb.feature("m2")], 0, 1)
+    mb.relation(h, [mb.feature("c1"), mb.feature("c2"), mb.feature("c3")], 2, 3)
+    ms["several-groups-per-feature"] = mb.model(r2, [])
     # a parent with a mandatory child next to a group, and nothing else solitary
     r = mb.feature("R")
     mb.relation(r, [mb.feature("m")], 1, 1)
@@ -316,6 +326,23 @@ def check(pm: ProgramModel, ctx: Ctx) -> None:
     ctx.check(same, "C17-STATE", "caches-reassigned", loc(calc.unit.path, calc.node),
               "analysing a second model with the same object gives the report of a fresh object",
               bad=f"metrics of a second model depend on the model analysed before: {diff[:4]}")
+    # history: same feature names in another shape, analysed later in the same process -----------------------
+    from ..absint import reset_global_state
+    from ..model import same_names_pair, twin_model
+
+    def key(rep: Any) -> Any:
+        return [(e["name"], e["result"], e["size"], e["ratio"]) for e in rep] if isinstance(rep, list) else rep
+    for label, (first, second_of) in {
+            "chain-then-flat": (same_names_pair(mb)[0], lambda: same_names_pair(mb)[1]),
+            "rich-then-regrouped": (rich_model(mb), lambda: twin_model(rich_model(mb)))}.items():
+        report(first)
+        after = key(report(second_of()))
+        reset_global_state()
+        fresh = key(report(second_of()))
+        diffn = [a[0] for a, b in zip(after, fresh) if a != b] if isinstance(after, list) and isinstance(fresh, list) else ["raises"]
+        ctx.check(after == fresh, "C17-STATE", f"history:{label}", where_cls,
+                  "a model with the same feature names analysed later in the process gets the report of a fresh process",
+                  bad=f"metrics of a model depend on a model with the same feature names analysed before it: {diffn[:4]}")
     # filter ---------------------------------------------------------------------------------------------
     fm = rich_model(mb)
     rep = report(fm, ["leaf_features", "or_groups"])
